@@ -43,8 +43,14 @@ def c15_shape():
                   and not any(x["attrs"] for x in e["fields"]), "Error derives both directions, ignores unknown members", json.dumps(e["attrs"])))
     p = decl(L, "PathFragment")
     vs = [(v["name"], [x["ty"] for x in v["fields"]]) for v in p["variants"]]
-    out.append(ob("C15.2.path_fragment_untagged_key_before_index", has_attr(p["attrs"], "serde(untagged)") and vs == [("Key", ["String"]), ("Index", ["i32"])],
-                  "PathFragment is untagged with Key(String) before Index(i32): strings and integers mix in a path", json.dumps(vs)))
+    out.append(ob("C15.2.path_fragment_untagged_key_before_index", has_attr(p["attrs"], "serde(untagged)") and vs == [("Key", ["String"]), ("Index", ["i32"])]
+                  and has_attr(p["attrs"], "Serialize") and has_attr(p["attrs"], "Deserialize"),
+                  "PathFragment derives both directions, untagged, Key(String) before Index(i32): strings and integers mix in a path and come back as what they were", json.dumps([vs, p["attrs"]])))
+    # A-serde describes what the DERIVED impls do with these declarations; a hand-written Serialize / Deserialize impl for one of the
+    # envelope types is outside that assumption (seeded change C15h: a visitor that read the string "2024" as an index)
+    src = re.sub(r"//[^\n]*", "", open(os.path.join(REPO, L)).read().split("#[cfg(test)]")[0])
+    manual = re.findall(r"impl\s*(?:<[^>]*>\s*)?(?:serde\s*::\s*)?(?:de\s*::\s*)?(Serialize|Deserialize(?:<[^>]*>)?)\s+for\s+(Response|Error|PathFragment|Location)\b", src)
+    out.append(ob("C15.2.no_manual_serde_impls", not manual, "no hand-written Serialize / Deserialize impl for Response, Error, PathFragment, Location (the derived ones are what A-serde describes)", json.dumps(manual)))
     lo = decl(L, "Location")
     out.append(ob("C15.2.location_shape", [(x["name"], x["ty"]) for x in lo["fields"]] == [("line", "i32"), ("column", "i32")]
                   and has_attr(lo["attrs"], "Serialize") and has_attr(lo["attrs"], "Deserialize"), "Location {line, column}", json.dumps(lo["fields"])))
